@@ -51,6 +51,15 @@ Definition obs_len (o : outcome) : Z := match o with Sent s => s_body_len s | _ 
 Inductive case :=
 (* the complete default backend stack: input, what the recording executor saw *)
 | CStack (i : input) (o : outcome)
+(* the same with the bytes of the body the executor read (POST transport): they are the bytes
+   the model's encoder writes *)
+| CStackRaw (i : input) (o : outcome) (raw : string)
+(* concurrent_calls = n: what each of the attempts handed to the executor (all of them are
+   held at the executor until the last one has arrived) *)
+| CStackN (i : input) (n : nat) (os : list outcome)
+(* spelling of type and method in the configuration, and what the stack was seen to do with a
+   probe request: None = no GraphQL handling (the client's request passed through) *)
+| COpts (typ method : string) (seen : option (optype * transport))
 (* config.ServiceConfig.Init on a backend URL pattern /{name}: the key it generated *)
 | CCap (name : string) (key : string)
 (* an arbitrary byte string s put at one place of the configuration / request (path parameter,
@@ -62,7 +71,24 @@ Inductive case :=
 
 Definition check_case (c : case) : bool * bool :=
   match c with
-  | CStack i o => (outcome_eqb (model i (obs_len o)) o, spec_b i o)
+  | CStack i o => (outcome_eqb (model_len i) o, spec_b i o)
+  | CStackRaw i o raw =>
+      (outcome_eqb (model_len i) o &&
+       match model_body i with Some b => str_eqb b raw | None => false end, spec_b i o)
+  | CStackN i n os =>
+      let count_ok := match model_len i with
+                      | Sent _ => Nat.eqb (List.length os) n
+                      | _ => Nat.eqb (List.length os) 1
+                      end in
+      (count_ok && forallb (fun o => outcome_eqb (model_len i) o) os, forallb (spec_b i) os)
+  | COpts t m seen =>
+      (match norm_type t, seen with
+       | Some ty, Some (ty', tr') =>
+           (match ty, ty' with TQuery, TQuery | TMutation, TMutation => true | _, _ => false end) &&
+           (match norm_method m, tr' with TPost, TPost | TGet, TGet => true | _, _ => false end)
+       | None, None => true
+       | _, _ => false
+       end, true)
   | CCap name key => (str_eqb (config_cap name) key, true)
   | CEscape s enc =>
       (str_eqb (escape s) enc &&
